@@ -289,8 +289,11 @@ def attribute_symptoms(m, ctx, first, generic=True, runner=None):
 
 
 # --------------------------------------------------------------------------- directed cases
-# Minimal explicit inputs for every mechanism found on the unchanged tree (also the witnesses of the known
-# findings) plus neighbouring cases that must hold.  vhints / bhints are given in walk order (results of each op,
+# Minimal explicit inputs for every mechanism found on the tree this check was built against (commit 7c241fe)
+# plus neighbouring cases that must hold.  Most of them were known findings until the fixes e3d6a19 (clone keeps
+# stored hints), 30b0661 (dense hex floats), e1082be (hints ASCII, all _N suffixes stripped), f09f753 (bb<N> is not a
+# block hint), dc09ffc (clone copies block hints) and the parser KeyError fix landed; they now document the expected
+# (empty) outcome and act as regression cases.  Still open: block-hint-elided-label, attr-key-non-ascii.  vhints / bhints are given in walk order (results of each op,
 # then for each region each block followed by its arguments); None = leave as parsed.
 _M3 = ('"builtin.module"() ({\n  %0 = "test.op"() : () -> i32\n  %1 = "test.op"() : () -> i32\n'
        '  %2 = "test.op"(%0, %1) : (i32, i32) -> i32\n}) : () -> ()')
@@ -301,26 +304,26 @@ DIRECTED = [
     {"name": "near-collision-ok", "ir": _M3, "vhints": ["a", "a_1", "a_2"], "expect": []},
     {"name": "punctuation-ok", "ir": _M3, "vhints": ["-", "a.b-c$", "$.-"], "expect": []},
     {"name": "suffix-collision", "ir": _M3, "vhints": ["a", "a", "a_1_2"],
-     "expect": ["hint:suffix-retained:reparse-fail"]},
+     "expect": []},
     {"name": "suffix-collision-then-use", "ir": _M3.replace("}) : () -> ()", '  "test.op"(%1, %2) : (i32, i32) -> ()\n}) : () -> ()'),
      "vhints": ["a", "a", "a_1_2"],
-     "expect": ["hint:suffix-retained:reparse-fail"]},
+     "expect": []},
     {"name": "suffix-reprint", "ir": _M3, "vhints": ["a_1_2", None, None],
-     "expect": ["hint:suffix-retained:reprint-differs"]},  # clone-print-differs until e3d6a19 (clone copies the stored hint)
-    {"name": "non-ascii", "ir": _M3, "vhints": ["a\u00e9", None, "_\u4e2d1"], "expect": ["hint:non-ascii:reparse-fail"]},
+     "expect": []},  # clone-print-differs until e3d6a19 (clone copies the stored hint)
+    {"name": "non-ascii", "ir": _M3, "vhints": ["a\u00e9", None, "_\u4e2d1"], "expect": []},
     {"name": "non-ascii-block-label-cut-short", "ir": _R3.replace("[^bb1, ^bb2]", "[^bb1]"), "bhints": [None, None, "a", "a\u00b2"],
-     "expect": ["hint:non-ascii:reparse-fail", "hint:block-hint:clone-print-differs"]},  # KeyError in _parse_block until the parser fix
+     "expect": []},  # KeyError in _parse_block until the parser fix
     {"name": "stripped-to-empty", "ir": _M3, "vhints": ["_0", None, None], "expect": []},  # clone crashed (ValueError) until e3d6a19
     {"name": "block-default-collision", "ir": _R3, "bhints": [None, None, None, "bb1"],
-     "expect": ["hint:block-default-name:reparse-fail", "hint:block-hint:clone-print-differs"]},  # KeyError until the parser fix
+     "expect": []},  # KeyError until the parser fix
     {"name": "block-default-redeclared", "ir": _R3.replace("[^bb1, ^bb2]", ""), "bhints": [None, None, None, "bb1"],
-     "expect": ["hint:block-default-name:reparse-fail", "hint:block-hint:clone-print-differs"]},
+     "expect": []},
     {"name": "block-default-reprint", "ir": _R1, "bhints": [None, "bb7"],
-     "expect": ["hint:block-default-name:reprint-differs", "hint:block-hint:clone-print-differs"]},
-    {"name": "same-hint-blocks", "ir": _R3, "bhints": [None, None, "x", "x"], "expect": ["hint:block-hint:clone-print-differs"]},
-    {"name": "block-hint-clone", "ir": _R1, "bhints": [None, "entry"], "expect": ["hint:block-hint:clone-print-differs"]},
+     "expect": []},
+    {"name": "same-hint-blocks", "ir": _R3, "bhints": [None, None, "x", "x"], "expect": []},
+    {"name": "block-hint-clone", "ir": _R1, "bhints": [None, "entry"], "expect": []},
     {"name": "block-hint-elided-label", "ir": _R1, "bhints": ["x", "x"],
-     "expect": ["hint:block-hint:reprint-differs", "hint:block-hint:clone-print-differs"]},
+     "expect": ["hint:block-hint:reprint-differs"]},
     {"name": "attr-key-non-ascii", "ir": _M3, "attr_key": "\u00fc", "expect": ["non-ascii-attr-key:reparse-fail"]},
     {"name": "attr-key-quoted-ok", "ir": _M3, "attr_key": "with \"quote\" and space", "expect": []},
     {"name": "dense-float-hex",
@@ -481,7 +484,10 @@ def work(job):
             ctx, m = build_directed(spec)
             before = {v["key"] for v in res["violations"]}
             n_before = dict(seen_keys)
-            evaluate(f"directed:{spec['name']}", m, ctx, "directed", {"kind": "directed", "only": spec["name"]})
+            rr = evaluate(f"directed:{spec['name']}", m, ctx, "directed", {"kind": "directed", "only": spec["name"]})
+            if spec["name"] in ("near-collision-ok", "suffix-collision-then-use", "same-hint-blocks") and rr["t1"]:
+                res["samples"].append({"directed_case": spec["name"], "hints": {k: spec[k] for k in ("vhints", "bhints") if k in spec},
+                                       "printed_generic": rr["t1"]})
             got = sorted(k for k in seen_keys if seen_keys[k] != n_before.get(k, 0))
             bump("directed_cases")
             if got != sorted(spec["expect"]):
@@ -506,7 +512,7 @@ def work(job):
                 continue
             ctx, m = pv
             evaluate(f"{f}#{i}", m, ctx, "corpus", {"kind": "corpus1", "file": f, "idx": i})
-            if len(res["samples"]) < 1:
+            if len(res["samples"]) < 1 and job.get("i", 0) == 0:
                 res["samples"].append({"corpus_chunk": f"{f}#{i}", "ops": sum(1 for _ in m.walk())})
     elif kind in ("gen", "gen1"):
         ctx = corpus.new_ctx()
